@@ -60,6 +60,16 @@ def firstBad (side : Nat) (ext : Bool) : Bool → Nat → List SFrame → Option
     if frameBad side ext frag f.h then some i
     else firstBad side ext (if isCtl f.h.op then frag else !f.h.fin) (i + 1) fs
 
+/-- Index of the first frame announcing more than `max` payload bytes (`max = 0`: no limit). -/
+def firstBig (max : Nat) : Nat → List SFrame → Option Nat
+  | _, [] => none
+  | i, f :: fs => if max > 0 ∧ f.h.len > max then some i else firstBig max (i + 1) fs
+
+def optMin : Option Nat → Option Nat → Option Nat
+  | none, b => b
+  | a, none => a
+  | some a, some b => some (min a b)
+
 /-- A top-level unit of a valid stream: a control frame outside any message, or a data message with
     the control frames interleaved between its fragments. -/
 structure MUnit where
